@@ -8,6 +8,7 @@ import (
 	"regexp"
 	"sort"
 	"strings"
+	"sync"
 
 	"verif/harness/internal/engine"
 	"verif/harness/internal/fake"
@@ -36,6 +37,8 @@ type c19Case struct {
 	Ops   []gen.Op         `json:"ops"`
 	Batch bool             `json:"batch"`
 	Files []c19File        `json:"files"`
+	// FaultKind != "": every service drops its first multipart sub-request this way after having read it
+	FaultKind string `json:"fault_kind,omitempty"`
 }
 
 func (c19) ID() string            { return "C19" }
@@ -205,6 +208,9 @@ func (p c19) Gen(c *run.Ctx, idx int) (json.RawMessage, error) {
 		}
 		cs.Files = append(cs.Files, f)
 	}
+	if idx%7 == 3 {
+		cs.FaultKind = pick(r, []string{"transport-eof", "transport-reset", "transport-unexpected-eof"})
+	}
 	if idx%300 == 7 && len(cs.Files) > 0 {
 		// one file larger than the 32 MiB the multipart reader keeps in memory, preferably bound to two paths
 		f := &cs.Files[0]
@@ -315,11 +321,73 @@ func (p c19) Exec(c *run.Ctx, idx int, raw json.RawMessage) []run.Result {
 	res.Counters["files"] = len(sp.Files)
 	res.Counters["bindings"] = len(binds)
 
+	var fmu sync.Mutex
+	failedCalls := map[int64]bool{}
+	if sp.FaultKind != "" {
+		failed := map[string]bool{}
+		for _, s := range r.Services {
+			s.FaultFn = func(cl *fake.Call) *fake.Fault {
+				fmu.Lock()
+				defer fmu.Unlock()
+				if cl.Multipart && !failed[cl.Service.Name] {
+					failed[cl.Service.Name] = true
+					failedCalls[cl.CallID] = true
+					return &fake.Fault{Kind: sp.FaultKind, Pos: -1}
+				}
+				return nil
+			}
+		}
+		tags["fault:"+sp.FaultKind] = true
+		res.Tags = sortedKeys(tags)
+	}
 	mark := r.Log.Len()
 	hr := r.Do(ct, body)
 	evs := r.Log.Since(mark)
 	var viol []violation
 	add := func(sym, msg string) { viol = append(viol, violation{sym, msg}) }
+	if sp.FaultKind != "" {
+		// the connection broke while an upload was being forwarded: the failure is reported for that operation, and the
+		// upload variable never goes out again without its file
+		res.Counters["upload_transport_faults"] = 1
+		if hr.Panic != nil {
+			add("handler-panic: "+errTemplate(fmt.Sprint(hr.Panic)), fmt.Sprint(hr.Panic)+"\n"+hr.Stack)
+		}
+		var got []*rig.GQLResponse
+		if sp.Batch {
+			got, _ = rig.DecodeBatch(hr.Body)
+		} else if g, e := rig.DecodeSingle(hr.Body); e == nil {
+			got = []*rig.GQLResponse{g}
+		}
+		for _, b := range binds {
+			top := strings.Split(strings.TrimPrefix(b.path, "variables."), ".")[0]
+			opName := sp.Ops[b.op].OperationName
+			faulted := false
+			for _, e := range evs {
+				if e.OpName != opName {
+					continue
+				}
+				declares := false
+				for _, m := range varDefRe.FindAllStringSubmatch(e.Query, -1) {
+					if m[1] == top {
+						declares = true
+					}
+				}
+				fmu.Lock()
+				wasDropped := failedCalls[e.CallID]
+				fmu.Unlock()
+				if declares && e.Multipart && wasDropped {
+					faulted = true
+				}
+				if declares && !e.Multipart {
+					add("upload-variable-sent-without-its-file", fmt.Sprintf("after the %s on the multipart sub-request, service %s received operation %s with $%s in a plain JSON request: %s", sp.FaultKind, e.Service, opName, top, head(e.Query, 200)))
+				}
+			}
+			if faulted && b.op < len(got) && got[b.op] != nil && len(got[b.op].Errors) == 0 {
+				add("upload-transport-failure-not-reported", fmt.Sprintf("operation %s: the sub-request carrying %s was dropped (%s), the client got no errors: %s", opName, b.path, sp.FaultKind, head(string(hr.Body), 300)))
+			}
+		}
+		return c19Finish(res, viol, idx, sp)
+	}
 	if hr.Panic != nil {
 		add("handler-panic: "+errTemplate(fmt.Sprint(hr.Panic)), fmt.Sprint(hr.Panic)+"\n"+hr.Stack)
 	} else if hr.Status != 200 {
@@ -417,6 +485,10 @@ func (p c19) Exec(c *run.Ctx, idx int, raw json.RawMessage) []run.Result {
 			}
 		}
 	}
+	return c19Finish(res, viol, idx, sp)
+}
+
+func c19Finish(res run.Result, viol []violation, idx int, sp c19Case) []run.Result {
 	if len(viol) == 0 {
 		if res.NonTrivial && idx%9 == 0 {
 			var fs []string
